@@ -124,6 +124,7 @@ package sourcewalk
 
 // Commands: one service per declared command service, each carrying the entity name.
 //@ spec func fullEnt(ent *entityNode) string = ent.packageName + "." + camel(ent.Schema.Name)
+//@ spec func cmdName(ent *entityNode, i int) string = ent.Schema.Commands[i].Name != nil ? (hasSuffix(*ent.Schema.Commands[i].Name, "Command") ? *ent.Schema.Commands[i].Name : *ent.Schema.Commands[i].Name + "Command") : camel(ent.Schema.Name) + "Command"
 //@ func (*entityNode).acceptCommands
 //@   requires ent != nil && ent.Schema != nil && visitor != nil
 //@   requires forall i int {ent.Schema.Commands[i]} :: 0 <= i && i < len(ent.Schema.Commands) ==> ent.Schema.Commands[i] != nil
@@ -131,6 +132,12 @@ package sourcewalk
 //@   |   && hasSuffix(*arg1.Name, "Command") && arg1.Methods == ent.Schema.Commands[idx].Methods
 //@   assert at VisitServiceFile#0 all: arg0 != nil && len(arg0.services) == len(ent.Schema.Commands)
 //@   loop 0 invariant len(services) == $iter && ent.Schema == old(ent.Schema) && ent.Schema.Commands == old(ent.Schema.Commands) && ent.name == old(ent.name)
+// every command service keeps its own name and methods until the file is handed over (each iteration has its own name cell)
+//@   loop 0 invariant forall i int {services[i]} :: 0 <= i && i < $iter ==> services[i] != nil && services[i].schema != nil && services[i].schema.Name != nil && reach(services[i].schema.Name) && reach(services[i]) && reach(services[i].schema)
+//@   |   && *services[i].schema.Name == cmdName(ent, i) && services[i].schema.Methods == ent.Schema.Commands[i].Methods
+//@   loop 0 invariant forall i int {ent.Schema.Commands[i]} :: 0 <= i && i < len(ent.Schema.Commands) ==> ent.Schema.Commands[i].Name == old(ent.Schema.Commands[i].Name) && (ent.Schema.Commands[i].Name != nil ==> *ent.Schema.Commands[i].Name == old(*ent.Schema.Commands[i].Name)) && ent.Schema.Commands[i].Methods == old(ent.Schema.Commands[i].Methods)
+//@   loop 0 invariant ent.Schema.Name == old(ent.Schema.Name) && fresh(services)
+//@   assert at VisitServiceFile#0 each: forall i int {arg0.services[i]} :: 0 <= i && i < len(ent.Schema.Commands) ==> *arg0.services[i].schema.Name == cmdName(ent, i) && arg0.services[i].schema.Methods == ent.Schema.Commands[i].Methods
 //@   loop 0 invariant forall i int {ent.Schema.Commands[i]} :: 0 <= i && i < len(ent.Schema.Commands) ==> ent.Schema.Commands[i] != nil
 
 // Publish topic: one event topic <Name>Publish for this entity.
